@@ -26,6 +26,7 @@ META = dict(
 
 NAME = "/verif-c50/lock"
 DEAD = 9
+PARENT = 8
 MAX_STEPS = 300
 
 
@@ -37,10 +38,16 @@ class Base:
     """One execution of n "processes" running `scripts` (lock/unlock/die) on real FilesystemLock objects over an
     in-memory link.  Every file-system call and every lock()/unlock()/die is a scheduling point (`point`)."""
 
-    def __init__(self, n, stale, scripts):
+    def __init__(self, n, stale, scripts, fork=None):
         self.n = n
         self.link = DEAD if stale else None
         self.alive = set(range(1, n + 1))
+        # fork-after-construct: ctor[p-1] = pid that is current while process p's FilesystemLock object is
+        # constructed (p itself, or PARENT = the process it was forked from, which may be alive or dead)
+        self.fork = fork or {}
+        self.ctor = list(self.fork.get("ctor") or range(1, n + 1))
+        if self.fork.get("parent"):
+            self.alive.add(PARENT)
         self.scripts = scripts
         self.ev = []
         self.hist = {p: [] for p in range(1, n + 1)}
@@ -126,7 +133,11 @@ class Base:
     def body(self, p):
         """The script of process p.  Runs the real lock()/unlock()."""
         from twisted.python import lockfile
-        lk = lockfile.FilesystemLock(NAME)
+        self.set_pid_override(self.ctor[p - 1])
+        try:
+            lk = lockfile.FilesystemLock(NAME)
+        finally:
+            self.set_pid_override(None)
         held = False
         for op in self.scripts[p - 1]:
             if op == "lock":
@@ -176,8 +187,8 @@ class Base:
 class ThreadRun(Base):
     """One thread per process; a thread blocks at every scheduling point until the scheduler grants it."""
 
-    def __init__(self, n, stale, scripts):
-        Base.__init__(self, n, stale, scripts)
+    def __init__(self, n, stale, scripts, fork=None):
+        Base.__init__(self, n, stale, scripts, fork)
         self.go = {p: threading.Semaphore(0) for p in range(1, n + 1)}
         self.back = threading.Semaphore(0)
         self.aborting = False
@@ -196,8 +207,11 @@ class ThreadRun(Base):
     def retlog(self, *a):
         self.log(*a)
 
+    def set_pid_override(self, pid):
+        self.tl.override = pid
+
     def getpid(self):
-        return getattr(self.tl, "p", 0)
+        return getattr(self.tl, "override", None) or getattr(self.tl, "p", 0)
 
     def _thread(self, p):
         self.tl.p = p
@@ -240,13 +254,17 @@ class ReRun(Base):
     the others is through the file-system calls), the next point is performed on the shared link, and the
     execution is cut at the point after it.  Much cheaper than a thread hand-off per step."""
 
-    def __init__(self, n, stale, scripts):
-        Base.__init__(self, n, stale, scripts)
+    def __init__(self, n, stale, scripts, fork=None):
+        Base.__init__(self, n, stale, scripts, fork)
+        self.override = None
         self.outs = {p: [] for p in range(1, n + 1)}     # (what, outcome) of every point performed by p
         self.cur = 0
 
+    def set_pid_override(self, pid):
+        self.override = pid
+
     def getpid(self):
-        return self.cur
+        return self.override or self.cur
 
     def point(self, what, fn):
         p = self.cur
@@ -327,14 +345,14 @@ class patched:
         patched.current = None
 
 
-def mkcfg(n, stale, scripts, mode="abs"):
-    return {"n": n, "stale": bool(stale), "mortal": True, "mode": mode}
+def mkcfg(n, stale, scripts, mode="abs", fork=None):
+    return {"n": n, "stale": bool(stale), "mortal": True, "parent": bool((fork or {}).get("parent")), "mode": mode}
 
 
-def execute(n, stale, scripts, choose, prefix=(), runner=None):
+def execute(n, stale, scripts, choose, prefix=(), runner=None, fork=None):
     """Run one execution.  `prefix` is followed first; then `choose(run, enabled)` picks the next process
     (None = stop and abandon the run).  Returns (trace, completed, path)."""
-    run = (runner or ReRun)(n, stale, scripts)
+    run = (runner or ReRun)(n, stale, scripts, fork)
     patched.current = run
     run.start()
     path = []
@@ -367,10 +385,11 @@ def execute(n, stale, scripts, choose, prefix=(), runner=None):
     ev = run.ev
     if completed:
         ev = ev + [{"e": "end", "p": 0, "res": "", "v": 0}]
-    return {"cfg": mkcfg(n, stale, scripts), "scripts": [list(s) for s in scripts], "path": path, "ev": ev}, completed, path
+    return {"cfg": mkcfg(n, stale, scripts, fork=fork), "scripts": [list(s) for s in scripts], "fork": {"ctor": list(run.ctor), "parent": bool((fork or {}).get("parent"))},
+            "path": path, "ev": ev}, completed, path
 
 
-def explore(n, stale, scripts, max_runs=None):
+def explore(n, stale, scripts, max_runs=None, fork=None):
     """State-hashed depth-first enumeration of all interleavings of the real code for the given scripts.
     Every reachable state (link, liveness, per-process observable history) is visited and every enabled
     step is taken from it once.  Returns (traces, number of states, complete?)."""
@@ -396,7 +415,7 @@ def explore(n, stale, scripts, max_runs=None):
             state["path"].append(en[0])
             return en[0]
 
-        t, completed, path = execute(n, stale, scripts, choose, prefix)
+        t, completed, path = execute(n, stale, scripts, choose, prefix, fork=fork)
         traces.append(t)
     return traces, len(seen), complete
 
@@ -409,6 +428,9 @@ def random_run(rng, runner=None):
     n = rng.choice([2, 3, 3])
     stale = rng.random() < 0.6
     scripts = [rng.choice(SCRIPT_MENU) for _ in range(n)]
+    fork = None
+    if rng.random() < 0.4:     # some lock objects were constructed before a fork, in a parent that is alive or dead
+        fork = {"ctor": [PARENT if rng.random() < 0.6 else p for p in range(1, n + 1)], "parent": rng.random() < 0.5}
     # bursty random scheduler: keeps running one process for a while with some probability
     st = {"cur": None}
 
@@ -418,7 +440,7 @@ def random_run(rng, runner=None):
         st["cur"] = rng.choice(en)
         return st["cur"]
 
-    return execute(n, stale, scripts, choose, runner=runner)[0]
+    return execute(n, stale, scripts, choose, runner=runner, fork=fork)[0]
 
 
 def follow(path):
@@ -497,7 +519,7 @@ def fingerprint(t, reached):
     if reached >= len(ev):
         return "trace-incomplete"
     e = ev[reached]
-    alive = set(range(1, t["cfg"]["n"] + 1))
+    alive = set(range(1, t["cfg"]["n"] + 1)) | ({PARENT} if t["cfg"].get("parent") else set())
     holding = set()
     lastread = {}
     incall = {}
@@ -543,14 +565,17 @@ def fingerprint(t, reached):
 def describe(t, reached):
     ev = t["ev"]
     e = ev[reached] if reached < len(ev) else None
-    return "FilesystemLock n=%d stale=%s scripts=%s: event %d %s rejected by FsLock.tla (history: %s)" % (
-        t["cfg"]["n"], t["cfg"]["stale"], t["scripts"], reached, e,
+    return "FilesystemLock n=%d stale=%s scripts=%s%s: event %d %s rejected by FsLock.tla (history: %s)" % (
+        t["cfg"]["n"], t["cfg"]["stale"], t["scripts"],
+        (" lock objects constructed under pids %s (parent %d %s)" % (t["fork"]["ctor"], PARENT, "alive" if t["fork"].get("parent") else "dead"))
+        if PARENT in (t.get("fork") or {}).get("ctor", []) else "",
+        reached, e,
         " ".join("%d:%s%s" % (x["p"], x["e"], ("=" + x["res"]) if x["res"] else "") for x in ev[:reached + 1]))
 
 
 def report(ctx, t, reached, origin):
     ctx.violation(fingerprint(t, reached), origin + ": " + describe(t, reached),
-                  dict(n=t["cfg"]["n"], stale=t["cfg"]["stale"], scripts=t["scripts"], path=t["path"], rejected_at=reached))
+                  dict(n=t["cfg"]["n"], stale=t["cfg"]["stale"], scripts=t["scripts"], fork=t.get("fork") or None, path=t["path"], rejected_at=reached))
 
 
 def mutate(t, rng):
@@ -655,13 +680,18 @@ def run(ctx):
             small += [(2, True, [LU + LU, LU + LU]), (2, True, [LU * 3, ("lock", "die")])]
             big += [(3, True, [("lock", "die"), LU, LU]), (3, True, [LU + LU, LU, LU])]
         all_complete = True
-        for n, stale, scripts in small + big:
+        FA = {"ctor": [PARENT, PARENT], "parent": True}      # both forked from a live parent that built the lock object
+        FD = {"ctor": [PARENT, 2], "parent": False}          # process 1's object was built by a parent that has died
+        small += [(2, False, [LU, LU], FA), (2, False, [LU + LU, LU], FD), (2, True, [LU, LU], FD)]
+        for item in small + big:
+            n, stale, scripts = item[:3]
+            fork = item[3] if len(item) > 3 else None
             cap = None if n == 2 else ctx.pick(1200, 15000)
-            ts, nstates, complete = explore(n, stale, scripts, max_runs=cap)
+            ts, nstates, complete = explore(n, stale, scripts, max_runs=cap, fork=fork)
             if n == 2:
                 all_complete = all_complete and complete      # `exhaustive` refers to the 2-process script sets
-            exh.append(dict(n=n, stale=stale, scripts=[list(s) for s in scripts], runs=len(ts), states=nstates, complete=complete))
-            ctx.log("explored n=%d stale=%s scripts=%s: %d runs, %d states, complete=%s" % (n, stale, scripts, len(ts), nstates, complete))
+            exh.append(dict(n=n, stale=stale, scripts=[list(s) for s in scripts], fork=fork, runs=len(ts), states=nstates, complete=complete))
+            ctx.log("explored n=%d stale=%s scripts=%s fork=%s: %d runs, %d states, complete=%s" % (n, stale, scripts, fork, len(ts), nstates, complete))
             traces += ts
         ctx.extra["exhaustive_interleavings"] = exh
         ctx.exhaustive = all_complete
@@ -687,7 +717,7 @@ def run(ctx):
         disagree = 0
         sample = [traces[i] for i in sorted(ctx.rng.sample(range(len(traces) - nthr), min(nthr, len(traces) - nthr)))]
         for t in sample:
-            u = execute(t["cfg"]["n"], t["cfg"]["stale"], [tuple(x) for x in t["scripts"]], follow(t["path"]), runner=ThreadRun)[0]
+            u = execute(t["cfg"]["n"], t["cfg"]["stale"], [tuple(x) for x in t["scripts"]], follow(t["path"]), runner=ThreadRun, fork=t.get("fork") or None)[0]
             if u["ev"] != t["ev"]:
                 disagree += 1
         ctx.extra["thread_vs_reexecution_runner"] = dict(compared=len(sample), different=disagree)
@@ -749,7 +779,7 @@ def run(ctx):
 
 def replay(ctx, obj):
     with patched():
-        t = execute(obj["n"], obj["stale"], [tuple(s) for s in obj["scripts"]], follow(obj["path"]), runner=ThreadRun)[0]
+        t = execute(obj["n"], obj["stale"], [tuple(s) for s in obj["scripts"]], follow(obj["path"]), runner=ThreadRun, fork=obj.get("fork") or None)[0]
     ctx.note_trace(t)
     for e in t["ev"]:
         print(e)
